@@ -11,7 +11,9 @@ import (
 	"flag"
 	"fmt"
 	"os"
+	"os/exec"
 	"strings"
+	"sync"
 
 	"github.com/google/reftable"
 	"github.com/google/reftable/zz_verif/rt"
@@ -52,6 +54,7 @@ type caseResult struct {
 	sample     string
 	leftLock   int
 	faultCases int
+	chainCases int
 }
 
 func hsOf(cfg reftable.Config) int { return stk.HashSize(cfg) }
@@ -181,7 +184,238 @@ func initial(kind string, cfg reftable.Config) (map[string][]byte, error) {
 	return m, nil
 }
 
-func runKind(v victim, init string, cfg reftable.Config, quick bool) (*caseResult, error) {
+// env is one case's world plus the bookkeeping shared by its stages.
+type env struct {
+	w     *mc.World
+	cfg   reftable.Config
+	hs    int
+	label string
+	ctx   string // "crash before call k/n ..." for messages
+	cr    *caseResult
+	rep   map[string]interface{}
+}
+
+func (e *env) vio(sig, msg string) {
+	tr := make([]string, len(e.w.Trace))
+	for i, ev := range e.w.Trace {
+		tr[i] = ev.String()
+	}
+	rp := map[string]interface{}{"harness": "crashseq", "trace": tr, "message": msg}
+	for k, v := range e.rep {
+		rp[k] = v
+	}
+	e.cr.violations = append(e.cr.violations, report.V{Property: "C06", Signature: sig, Msg: msg, Count: 1, Replay: rp})
+}
+
+// step runs fn as process pid; a panic or an error is a violation.
+func (e *env) step(pid int, name string, fn func() error) bool {
+	var er error
+	perr := e.w.As(pid, func() (err error) {
+		defer func() {
+			if r := recover(); r != nil {
+				if fmt.Sprintf("%T", r) == "mc.killSentinel" {
+					panic(r)
+				}
+				err = fmt.Errorf("PANIC: %v", r)
+			}
+		}()
+		er = fn()
+		return nil
+	})
+	if perr != nil {
+		e.vio("crash:survivor-panics@"+name, fmt.Sprintf("%s %s: survivor %s: %v", e.label, e.ctx, name, perr))
+		return false
+	}
+	if er != nil {
+		e.vio("crash:survivor-"+name+"-fails:"+short(er.Error()), fmt.Sprintf("%s %s: survivor %s failed: %v; dir=%v list=%v", e.label, e.ctx, name, er, e.w.Names(), monitor.ListNames(e.w)))
+		return false
+	}
+	return true
+}
+
+func (e *env) removeLocks() {
+	for _, nm := range e.w.Names() {
+		if strings.HasSuffix(nm, ".lock") {
+			e.w.Unlink(nm)
+		}
+	}
+}
+
+// pin reads everything through st and returns the allowed model the view equals (nil: none).
+func (e *env) pin(st *reftable.Stack, allowed []*refdb.DB) (*refdb.DB, error) {
+	refs, logs, err := hx.ReadAll(st.Merged(), e.hs)
+	if err != nil {
+		return nil, err
+	}
+	got := hx.Joined(refs, logs)
+	for _, a := range allowed {
+		if got == a.CanonString(e.hs) {
+			return a, nil
+		}
+	}
+	return nil, fmt.Errorf("view is neither the state before nor the state after the operation:\n%s", got)
+}
+
+func applyS(base *refdb.DB, id string, ui uint64, hs int, exact bool) *refdb.DB {
+	nb := base.Clone()
+	refs, logs := stk.Txn(id).Records(ui, hs, exact)
+	for _, r := range refs {
+		nb.PutRef(r)
+	}
+	for _, l := range logs {
+		nb.PutLog(l)
+	}
+	return nb
+}
+
+// survive is the survivor program: open, scan (one of allowed), add, scan, compact, scan, clean, close,
+// reopen, scan. leftLock: a stale tables.list.lock is still there (writers may then fail with ErrLockFailure).
+// It returns which state was pinned and the result of the Add.
+func (e *env) survive(pid int, allowed []*refdb.DB, operator bool) (pinned *refdb.DB, sRes string, done bool) {
+	w, cfg, hs := e.w, e.cfg, e.hs
+	var s2 *reftable.Stack
+	open := func() error {
+		var er error
+		s2, er = reftable.NewStack(stk.Dir, cfg)
+		if er != nil {
+			return er
+		}
+		s2.VerifSetAutoCompact(false)
+		return nil
+	}
+	if !e.step(pid, "open", open) {
+		return nil, "", false
+	}
+	if !e.step(pid, "read", func() error { var er error; pinned, er = e.pin(s2, allowed); return er }) {
+		return nil, "", false
+	}
+	if operator {
+		e.removeLocks()
+	}
+	leftLock := w.Lookup("tables.list.lock") != nil
+	var sUI uint64
+	if !e.step(pid, "add", func() error {
+		err := s2.Add(func(wr *reftable.Writer) error { sUI = s2.NextUpdateIndex(); return stk.Txn("s").Write(wr, sUI, hs) })
+		sRes = hx.ErrString(err)
+		if err != nil && !(err == reftable.ErrLockFailure && leftLock) {
+			return fmt.Errorf("Add: %v (leftover tables.list.lock: %v)", err, leftLock)
+		}
+		return nil
+	}) {
+		return pinned, sRes, false
+	}
+	expect := pinned
+	if sRes == "ok" {
+		expect = applyS(pinned, "s", sUI, hs, cfg.ExactLogMessage)
+	}
+	chk := func(name string) bool {
+		return e.step(pid, name, func() error { _, er := e.pin(s2, []*refdb.DB{expect}); return er })
+	}
+	if !chk("read2") {
+		return pinned, sRes, false
+	}
+	if !e.step(pid, "compactall", func() error {
+		err := s2.CompactAll(nil)
+		if err != nil && err != reftable.ErrLockFailure {
+			return err
+		}
+		return nil
+	}) {
+		return pinned, sRes, false
+	}
+	if !chk("read3") {
+		return pinned, sRes, false
+	}
+	if !e.step(pid, "clean", func() error {
+		err := s2.Clean()
+		if err != nil && !(err == reftable.ErrLockFailure && leftLock) {
+			return err
+		}
+		return nil
+	}) {
+		return pinned, sRes, false
+	}
+	e.step(pid, "close", func() error { s2.Close(); return nil })
+	if !e.step(pid, "reopen", open) {
+		return pinned, sRes, false
+	}
+	chk("read4")
+	e.step(pid, "close2", func() error { s2.Close(); return nil })
+	return pinned, sRes, true
+}
+
+// victimRun opens a handle as process pid and runs one call of the given kind, killed before its k-th
+// filesystem call (k=0: never) and with its j-th call failing (j=0: none; shortW: a failing write stores
+// half of its bytes first). It returns the call's result ("crashed" if killed), the number of calls made and
+// the model state after the complete operation.
+func (e *env) victimRun(pid int, kind string, noAuto bool, base *refdb.DB, k, j int, shortW bool) (res string, n int, after *refdb.DB, faulted bool, err error) {
+	w, cfg := e.w, e.cfg
+	vp := w.Proc(pid)
+	var st *reftable.Stack
+	if er := w.As(pid, func() error {
+		var e2 error
+		st, e2 = reftable.NewStack(stk.Dir, cfg)
+		if e2 == nil {
+			st.VerifSetAutoCompact(!noAuto)
+		}
+		return e2
+	}); er != nil {
+		return "", 0, nil, false, fmt.Errorf("victim open: %v", er)
+	}
+	vp.OpCount = 0
+	vp.CrashAt = k
+	vp.FaultAt = j
+	vp.FaultShort = shortW
+	vp.Faults = 0
+	// the expected state after the operation comes from the model alone, before the call runs
+	after = planAfter(st, kind, cfg, base)
+	verr := w.As(pid, func() (err error) {
+		defer func() {
+			if r := recover(); r != nil {
+				if fmt.Sprintf("%T", r) == "mc.killSentinel" {
+					panic(r)
+				}
+				res = fmt.Sprintf("PANIC: %v", r)
+			}
+		}()
+		res, _, _ = runVictim(w, vp, st, kind, cfg, base)
+		return nil
+	})
+	n = vp.OpCount
+	if verr == mc.ErrCrashed {
+		res = "crashed"
+		vp.DropFDs()
+	}
+	faulted = vp.Faults > 0
+	vp.FaultAt = 0
+	vp.CrashAt = 0
+	return res, n, after, faulted, nil
+}
+
+func newEnv(snap map[string][]byte, init string, cfg reftable.Config, label string, cr *caseResult) *env {
+	w := mc.NewWorld(stk.Dir)
+	w.Restore(snap)
+	rt.E = w
+	w.KeepTrace = true
+	li := &monitor.ListIntegrity{Prop: "C06", HashID: stk.HashName(cfg), Cfg: cfg, CheckOpen: true}
+	if init == "empty" || init == "orphan-empty" {
+		li.HashID = ""
+	}
+	w.Monitors = append(w.Monitors, li)
+	return &env{w: w, cfg: cfg, hs: hsOf(cfg), label: label, cr: cr}
+}
+
+func (e *env) finish() error {
+	for _, mv := range e.w.Violations {
+		e.vio(mv.Signature, fmt.Sprintf("%s %s: %s", e.label, e.ctx, mv.Msg))
+	}
+	return e.w.HarnessErr
+}
+
+// second-stage victims of the crash chains
+var chainKinds = []victim{{Kind: "addauto"}, {Kind: "compactall", NoAuto: true}, {Kind: "clean", NoAuto: true}}
+
+func runKind(v victim, init string, cfg reftable.Config, quick bool, chains bool, second int) (*caseResult, error) {
 	cr := &caseResult{}
 	snap, err := initial(init, cfg)
 	if err != nil {
@@ -191,228 +425,43 @@ func runKind(v victim, init string, cfg reftable.Config, quick bool) (*caseResul
 	if err != nil {
 		return nil, err
 	}
-	hs := hsOf(cfg)
-	beforeC := before.CanonString(hs)
 	label := fmt.Sprintf("%s/%s/%s", v.Kind, init, stk.HashName(cfg))
 
-	// oneCase: the victim's j-th filesystem call fails with EIO (j=0: none) and the victim is killed
+	// oneCase: the victim's j-th filesystem call fails (j=0: none) and the victim is killed
 	// immediately before its k-th call (k=0: never).
-	oneCase := func(k int, operator bool, j int) (n int, err error) {
-		w := mc.NewWorld(stk.Dir)
-		w.Restore(snap)
-		rt.E = w
+	oneCase := func(k int, operator bool, j int, shortW bool) (n int, err error) {
+		e := newEnv(snap, init, cfg, label, cr)
 		defer func() { rt.E = nil }()
-		w.KeepTrace = true
-		li := &monitor.ListIntegrity{Prop: "C06", HashID: stk.HashName(cfg), Cfg: cfg, CheckOpen: true}
-		if init == "empty" || init == "orphan-empty" {
-			li.HashID = ""
+		e.rep = map[string]interface{}{"victim": v.Kind, "initial": init, "hash": stk.HashName(cfg), "crash_before_vfs_call": k, "failing_vfs_call": j, "short_write": shortW}
+		res, n, afterDB, faulted, err := e.victimRun(0, v.Kind, v.NoAuto, before, k, j, shortW)
+		if err != nil {
+			return 0, err
 		}
-		w.Monitors = append(w.Monitors, li)
-		vp := w.Proc(0)
-		var st *reftable.Stack
-		if err := w.As(0, func() error {
-			var e error
-			st, e = reftable.NewStack(stk.Dir, cfg)
-			if e == nil {
-				st.VerifSetAutoCompact(!v.NoAuto)
-			}
-			return e
-		}); err != nil {
-			return 0, fmt.Errorf("victim open: %v", err)
-		}
-		vp.OpCount = 0
-		vp.CrashAt = k
-		vp.FaultAt = j
-		vp.Faults = 0
-		var res string
-		// the expected state after the operation comes from the model alone, before the call runs
-		afterDB := planAfter(st, v.Kind, cfg, before)
-		verr := w.As(0, func() (err error) {
-			defer func() {
-				if r := recover(); r != nil {
-					if fmt.Sprintf("%T", r) == "mc.killSentinel" {
-						panic(r)
-					}
-					res = fmt.Sprintf("PANIC: %v", r)
-				}
-			}()
-			res, _, _ = runVictim(w, vp, st, v.Kind, cfg, before)
-			return nil
-		})
-		n = vp.OpCount
-		crashed := verr == mc.ErrCrashed
-		if crashed {
-			res = "crashed"
-			vp.DropFDs()
-		}
-		afterC := afterDB.CanonString(hs)
-		vio := func(sig, msg string) {
-			tr := make([]string, len(w.Trace))
-			for i, e := range w.Trace {
-				tr[i] = e.String()
-			}
-			cr.violations = append(cr.violations, report.V{Property: "C06", Signature: sig, Msg: msg, Count: 1,
-				Replay: map[string]interface{}{"harness": "crashseq", "victim": v.Kind, "initial": init, "hash": stk.HashName(cfg), "crash_before_vfs_call": k, "failing_vfs_call": j, "victim_calls_total": n, "trace": tr, "message": msg}})
-		}
-		faulted := vp.Faults > 0
+		e.rep["victim_calls_total"] = n
+		e.ctx = fmt.Sprintf("crash before call %d/%d (victim: %s)", k, n, res)
+		crashed := res == "crashed"
 		if j > 0 && !faulted {
 			return n, nil // the j-th call cannot fail (removal, close of a read-only descriptor) or was never reached
 		}
-		vp.FaultAt = 0
 		if strings.HasPrefix(res, "PANIC") {
-			vio("crash:victim-panics@"+v.Kind, fmt.Sprintf("%s: victim call panicked (failing call %d): %s", label, j, res))
+			e.vio("crash:victim-panics@"+v.Kind, fmt.Sprintf("%s: victim call panicked (failing call %d): %s", label, j, res))
 		}
 		if !crashed && res != "ok" && !faulted {
-			vio("crash:victim-fails-alone@"+v.Kind, fmt.Sprintf("%s: victim call failed without any crash: %s", label, res))
+			e.vio("crash:victim-fails-alone@"+v.Kind, fmt.Sprintf("%s: victim call failed without any crash: %s", label, res))
 		}
-		// survivor program
-		leftLock := w.Lookup("tables.list.lock") != nil
-		if leftLock && !operator {
+		if e.w.Lookup("tables.list.lock") != nil && !operator {
 			cr.leftLock++
 		}
-		sp := w.Proc(1)
-		_ = sp
-		cur := "" // current expected view once pinned
-		step := func(name string, fn func() (string, error)) bool {
-			var out string
-			var e error
-			perr := w.As(1, func() (err error) {
-				defer func() {
-					if r := recover(); r != nil {
-						if fmt.Sprintf("%T", r) == "mc.killSentinel" {
-							panic(r)
-						}
-						err = fmt.Errorf("PANIC: %v", r)
-					}
-				}()
-				out, e = fn()
-				return nil
-			})
-			if perr != nil {
-				vio("crash:survivor-panics@"+name, fmt.Sprintf("%s crash before call %d/%d: survivor %s: %v", label, k, n, name, perr))
-				return false
-			}
-			if e != nil {
-				vio("crash:survivor-"+name+"-fails:"+short(e.Error()), fmt.Sprintf("%s crash before call %d/%d (victim: %s): survivor %s failed: %v; dir=%v list=%v", label, k, n, res, name, e, w.Names(), monitor.ListNames(w)))
-				return false
-			}
-			_ = out
-			return true
-		}
-		var s2 *reftable.Stack
-		readCheck := func(name string, allowed ...string) func() (string, error) {
-			return func() (string, error) {
-				refs, logs, err := hx.ReadAll(s2.Merged(), hs)
-				if err != nil {
-					return "", err
-				}
-				got := hx.Joined(refs, logs)
-				for _, a := range allowed {
-					if got == a {
-						cur = got
-						return got, nil
-					}
-				}
-				which := "the state before nor the state after the operation"
-				return "", fmt.Errorf("view is neither %s:\n%s", which, got)
-			}
-		}
-		open := func() (string, error) {
-			var e error
-			s2, e = reftable.NewStack(stk.Dir, cfg)
-			if e != nil {
-				return "", e
-			}
-			s2.VerifSetAutoCompact(false)
-			return "ok", nil
-		}
-		if !step("open", open) {
-			return n, nil
-		}
-		allowed := []string{beforeC, afterC}
+		allowed := []*refdb.DB{before, afterDB}
 		if !crashed && res == "ok" {
-			allowed = []string{afterC}
+			allowed = []*refdb.DB{afterDB}
 		}
-		if !step("read", readCheck("read", allowed...)) {
+		pinned, sRes, done := e.survive(1, allowed, operator)
+		if !done {
 			return n, nil
 		}
-		pinned := cur
-		if operator {
-			// an operator removes the stale lock files a crashed process left behind
-			for _, nm := range w.Names() {
-				if strings.HasSuffix(nm, ".lock") {
-					w.Unlink(nm)
-				}
-			}
-			leftLock = false
-		}
-		// survivor Add: ok, or lockfail only while the leftover list lock exists
-		sT := stk.Txn("s")
-		var sRes string
-		var sUI uint64
-		okAdd := step("add", func() (string, error) {
-			err := s2.Add(func(wr *reftable.Writer) error { sUI = s2.NextUpdateIndex(); return sT.Write(wr, sUI, hs) })
-			sRes = hx.ErrString(err)
-			if err != nil && !(err == reftable.ErrLockFailure && leftLock) {
-				return "", fmt.Errorf("Add: %v (leftover tables.list.lock: %v)", err, leftLock)
-			}
-			return sRes, nil
-		})
-		if !okAdd {
-			return n, nil
-		}
-		expect := pinned
-		if sRes == "ok" {
-			// apply s to whichever state was pinned
-			base := before
-			if pinned == afterC {
-				base = afterDB
-			}
-			nb := base.Clone()
-			refs, logs := sT.Records(sUI, hs, cfg.ExactLogMessage)
-			for _, r := range refs {
-				nb.PutRef(r)
-			}
-			for _, l := range logs {
-				nb.PutLog(l)
-			}
-			expect = nb.CanonString(hs)
-		}
-		if !step("read2", readCheck("read2", expect)) {
-			return n, nil
-		}
-		if !step("compactall", func() (string, error) {
-			err := s2.CompactAll(nil)
-			if err != nil && err != reftable.ErrLockFailure {
-				return "", err
-			}
-			return "", nil
-		}) {
-			return n, nil
-		}
-		if !step("read3", readCheck("read3", expect)) {
-			return n, nil
-		}
-		if !step("clean", func() (string, error) {
-			err := s2.Clean()
-			if err != nil && !(err == reftable.ErrLockFailure && leftLock) {
-				return "", err
-			}
-			return "", nil
-		}) {
-			return n, nil
-		}
-		step("close", func() (string, error) { s2.Close(); return "", nil })
-		if !step("reopen", open) {
-			return n, nil
-		}
-		step("read4", readCheck("read4", expect))
-		step("close2", func() (string, error) { s2.Close(); return "", nil })
-		for _, mv := range w.Violations {
-			vio(mv.Signature, fmt.Sprintf("%s crash before call %d/%d: %s", label, k, n, mv.Msg))
-		}
-		if w.HarnessErr != nil {
-			return n, w.HarnessErr
+		if err := e.finish(); err != nil {
+			return n, err
 		}
 		if faulted {
 			cr.faultCases++
@@ -420,42 +469,122 @@ func runKind(v victim, init string, cfg reftable.Config, quick bool) (*caseResul
 		if crashed || faulted {
 			cr.nontrivial++
 			if cr.sample == "" && crashed && k >= (cr.n+1)/2 && !operator {
-				cr.sample = fmt.Sprintf("%s: victim killed before its vfs call %d; directory then %v; survivor saw %s, its Add: %s", label, k, w.Names(), map[bool]string{true: "AFTER", false: "BEFORE"}[pinned == afterC && beforeC != afterC], sRes)
+				cr.sample = fmt.Sprintf("%s: victim killed before its vfs call %d; directory then %v; survivor saw %s, its Add: %s", label, k, e.w.Names(), map[bool]string{true: "AFTER", false: "BEFORE"}[pinned == afterDB && before.CanonString(e.hs) != afterDB.CanonString(e.hs)], sRes)
 			}
 		}
 		cr.cases++
 		return n, nil
 	}
 	// k = 0 means no crash: the call completes (also gives n)
-	n, err := oneCase(0, false, 0)
+	n, err := oneCase(0, false, 0, false)
 	if err != nil {
 		return nil, err
 	}
 	cr.n = n
-	for k := 1; k <= n; k++ {
-		for _, operator := range []bool{false, true} {
-			if _, err := oneCase(k, operator, 0); err != nil {
-				return nil, err
+	if !chains {
+		for k := 1; k <= n; k++ {
+			for _, operator := range []bool{false, true} {
+				if _, err := oneCase(k, operator, 0, false); err != nil {
+					return nil, err
+				}
 			}
 		}
+		// one failing filesystem call: the victim's j-th call fails and the victim carries on (its error
+		// path is part of the operation); it then finishes (k=0) or is killed before a later call k>j
+		// (quick: only the call right after the failing one and the last one). Each failing call is tried as
+		// EIO without effect and, for writes, as a short write (half of the bytes stored, then ENOSPC).
+		for _, shortW := range []bool{false, true} {
+			for j := 1; j <= n+8; j++ {
+				nj, err := oneCase(0, false, j, shortW)
+				if err != nil {
+					return nil, err
+				}
+				if j > nj {
+					break
+				}
+				for k := j + 1; k <= nj; k++ {
+					if quick && k != j+1 && k != nj {
+						continue
+					}
+					if _, err := oneCase(k, false, j, shortW); err != nil {
+						return nil, err
+					}
+				}
+			}
+		}
+		return cr, nil
 	}
-	// one failing filesystem call: the victim's j-th call returns EIO and the victim carries on (its error
-	// path is part of the operation); it then finishes (k=0) or is killed before a later call k>j
-	// (quick: only the call right after the failing one and the last one)
-	for j := 1; j <= n+8; j++ {
-		nj, err := oneCase(0, false, j)
-		if err != nil {
-			return nil, err
-		}
-		if j > nj {
-			break
-		}
-		for k := j + 1; k <= nj; k++ {
-			if quick && k != j+1 && k != nj {
+
+	// Crash chains: the victim is killed before its k1-th call; an operator removes leftover locks; a second
+	// process opens the directory, reads (pinning S1 in {before, after}), runs one call of a second kind
+	// and is itself killed before its k2-th call (every k2); locks are removed again and the survivor program
+	// must see S1 or S1 followed by the second operation. The second victim thus starts from every
+	// directory state a crash can leave behind, not only from tidy ones.
+	for k1 := 1; k1 <= n; k1++ {
+		for vi, v2 := range chainKinds {
+			if second >= 0 && vi != second {
 				continue
 			}
-			if _, err := oneCase(k, false, j); err != nil {
-				return nil, err
+			n2 := -1
+			for k2 := 0; n2 < 0 || k2 <= n2; k2++ {
+				e := newEnv(snap, init, cfg, label+">"+v2.Kind, cr)
+				e.rep = map[string]interface{}{"victim": v.Kind, "initial": init, "hash": stk.HashName(cfg), "crash_before_vfs_call": k1, "second_victim": v2.Kind, "second_crash_before_vfs_call": k2, "chain": true}
+				res1, _, after1, _, err := e.victimRun(0, v.Kind, v.NoAuto, before, k1, 0, false)
+				if err != nil {
+					rt.E = nil
+					return nil, err
+				}
+				e.ctx = fmt.Sprintf("first crash before call %d/%d (%s), second victim %s", k1, n, res1, v2.Kind)
+				e.removeLocks()
+				// second victim: pin S1 through a handle of its own
+				var s1 *refdb.DB
+				var ps *reftable.Stack
+				ok := e.step(1, "open", func() error {
+					var er error
+					ps, er = reftable.NewStack(stk.Dir, cfg)
+					return er
+				}) && e.step(1, "read", func() error { var er error; s1, er = e.pin(ps, []*refdb.DB{before, after1}); return er })
+				if ok {
+					e.step(1, "close", func() error { ps.Close(); return nil })
+					res2, m2, after2, _, err := e.victimRun(1, v2.Kind, v2.NoAuto, s1, k2, 0, false)
+					if err != nil {
+						e.vio("crash:survivor-open-fails:"+short(err.Error()), fmt.Sprintf("%s %s: %v", e.label, e.ctx, err))
+					} else {
+						if k2 == 0 {
+							n2 = m2
+						}
+						e.ctx += fmt.Sprintf(" killed before call %d/%d (%s)", k2, m2, res2)
+						if strings.HasPrefix(res2, "PANIC") {
+							e.vio("crash:victim-panics@"+v2.Kind, fmt.Sprintf("%s %s: second victim panicked: %s", e.label, e.ctx, res2))
+						}
+						if res2 != "crashed" && res2 != "ok" {
+							e.vio("crash:victim-fails-alone@"+v2.Kind, fmt.Sprintf("%s %s: second victim's call failed without any crash of its own: %s", e.label, e.ctx, res2))
+						}
+						allowed := []*refdb.DB{s1, after2}
+						if res2 == "ok" {
+							allowed = []*refdb.DB{after2}
+						}
+						e.removeLocks()
+						if _, _, done := e.survive(2, allowed, true); done {
+							if err := e.finish(); err != nil {
+								rt.E = nil
+								return nil, err
+							}
+							cr.cases++
+							if res1 == "crashed" && res2 == "crashed" {
+								cr.nontrivial++
+								cr.chainCases++
+								if cr.sample == "" && k1 >= n/2 && k2 >= m2/2 {
+									cr.sample = fmt.Sprintf("%s: first victim killed before call %d/%d, second victim (%s) killed before call %d/%d; directory then %v", label, k1, n, v2.Kind, k2, m2, e.w.Names())
+								}
+							}
+						}
+					}
+				}
+				rt.E = nil
+				if n2 < 0 {
+					n2 = 0 // the complete second call could not even be run: reported above
+				}
 			}
 		}
 	}
@@ -504,15 +633,72 @@ func short(s string) string {
 	return strings.Join(f, "_")
 }
 
+type job struct {
+	V     victim
+	Init  string
+	Cfg   int
+	Chain bool
+	Second int // crash chains: index of the second victim's kind in chainKinds
+}
+
+type jobOut struct {
+	Violations []report.V
+	N, Cases   int
+	Nontrivial int
+	Sample     string
+	LeftLock   int
+	FaultCases int
+	ChainCases int
+	Err        string
+}
+
+var cfgs = []reftable.Config{{}, {HashID: reftable.SHA256ID}}
+
+func jobs(tier string) []job {
+	var js []job
+	for _, v := range victims {
+		for ii, init := range v.Inits {
+			for ci := range cfgs {
+				if tier == "quick" && (ci == 1 && ii > 0) {
+					continue // quick: sha256 only on the first initial stack of each kind
+				}
+				js = append(js, job{V: v, Init: init, Cfg: ci})
+				// crash chains: quick runs them on SHA-1 for the first initial stack of each kind (three-table
+				// Additions, the longest calls, only in the thorough tier)
+				if tier == "thorough" || (ci == 0 && ii < 1 && v.Kind != "addition3") {
+					for k := range chainKinds {
+						js = append(js, job{V: v, Init: init, Cfg: ci, Chain: true, Second: k})
+					}
+				}
+			}
+		}
+	}
+	return js
+}
+
 func main() {
 	prop := flag.String("property", "C06", "")
 	tier := flag.String("tier", "quick", "")
 	bindRep := flag.String("bindreport", "", "")
 	replay := flag.String("replay", "", "")
+	jobIdx := flag.Int("job", -1, "internal: run one job and print its result as JSON")
 	flag.Parse()
+	js := jobs(*tier)
+	if *jobIdx >= 0 {
+		j := js[*jobIdx]
+		out := jobOut{}
+		cr, err := runKind(j.V, j.Init, cfgs[j.Cfg], *tier == "quick", j.Chain, j.Second)
+		if err != nil {
+			out.Err = err.Error()
+		} else {
+			out = jobOut{Violations: cr.violations, N: cr.n, Cases: cr.cases, Nontrivial: cr.nontrivial, Sample: cr.sample, LeftLock: cr.leftLock, FaultCases: cr.faultCases, ChainCases: cr.chainCases}
+		}
+		b, _ := json.Marshal(out)
+		fmt.Println("JOBRESULT " + string(b))
+		return
+	}
 	run := report.NewRun(*prop, *tier, "fault_enumeration")
-	cfgs := []reftable.Config{{}, {HashID: reftable.SHA256ID}}
-	total, nontrivial, points := 0, 0, 0
+	total, nontrivial, points, chainTotal := 0, 0, 0, 0
 	var perKind []map[string]interface{}
 	var samples []interface{}
 	type rp struct {
@@ -520,44 +706,32 @@ func main() {
 			Victim  string `json:"victim"`
 			Initial string `json:"initial"`
 			Hash    string `json:"hash"`
+			Chain   bool   `json:"chain"`
 		} `json:"replay"`
 	}
-	var only *rp
 	if *replay != "" {
 		b, err := os.ReadFile(*replay)
 		if err != nil {
 			fmt.Println("HARNESS-ERROR", err)
 			os.Exit(2)
 		}
-		only = &rp{}
+		only := &rp{}
 		json.Unmarshal(b, only)
-	}
-	for _, v := range victims {
-		for ii, init := range v.Inits {
-			for ci, cfg := range cfgs {
-				if *tier == "quick" && only == nil && (ci == 1 && ii > 0) {
-					continue // quick: sha256 only on the first initial stack of each kind
-				}
-				if only != nil && !(only.Replay.Victim == v.Kind && only.Replay.Initial == init && only.Replay.Hash == stk.HashName(cfg)) {
-					continue
-				}
-				cr, err := runKind(v, init, cfg, *tier == "quick")
-				if err != nil {
-					fmt.Println("HARNESS-ERROR", v.Kind, init, err)
-					os.Exit(2)
-				}
-				total += cr.cases
-				nontrivial += cr.nontrivial
-				points += cr.n
-				run.Violations = append(run.Violations, cr.violations...)
-				perKind = append(perKind, map[string]interface{}{"victim": v.Kind, "initial": init, "hash": stk.HashName(cfg), "vfs_calls_of_the_call": cr.n, "crash_points_enumerated": cr.n, "cases": cr.cases, "cases_with_a_failing_call": cr.faultCases, "crashes_leaving_list_lock": cr.leftLock})
-				if cr.sample != "" && len(samples) < 8 {
-					samples = append(samples, cr.sample)
+		for _, v := range victims {
+			for _, init := range v.Inits {
+				for _, cfg := range cfgs {
+					if !(only.Replay.Victim == v.Kind && only.Replay.Initial == init && only.Replay.Hash == stk.HashName(cfg)) {
+						continue
+					}
+					cr, err := runKind(v, init, cfg, false, only.Replay.Chain, -1)
+					if err != nil {
+						fmt.Println("HARNESS-ERROR", v.Kind, init, err)
+						os.Exit(2)
+					}
+					run.Violations = append(run.Violations, cr.violations...)
 				}
 			}
 		}
-	}
-	if only != nil {
 		for _, v := range run.Violations {
 			fmt.Printf("violation: %s\n%s\n", v.Signature, v.Msg)
 		}
@@ -568,13 +742,62 @@ func main() {
 		fmt.Println("no violation on replay")
 		os.Exit(0)
 	}
+	// parent: one subprocess per (victim kind, initial stack, hash type, plain|chains), up to 16 at a time
+	self, _ := os.Executable()
+	outs := make([]jobOut, len(js))
+	var wg sync.WaitGroup
+	sem := make(chan struct{}, 16)
+	for i := range js {
+		wg.Add(1)
+		go func(i int) {
+			defer wg.Done()
+			sem <- struct{}{}
+			defer func() { <-sem }()
+			cmd := exec.Command(self, "--property", *prop, "--tier", *tier, "--job", fmt.Sprint(i))
+			cmd.Env = append(os.Environ(), "GOMAXPROCS=1")
+			out, err := cmd.CombinedOutput()
+			found := false
+			for _, l := range strings.Split(string(out), "\n") {
+				if strings.HasPrefix(l, "JOBRESULT ") && json.Unmarshal([]byte(l[len("JOBRESULT "):]), &outs[i]) == nil {
+					found = true
+				}
+			}
+			if !found {
+				tail := string(out)
+				if len(tail) > 2000 {
+					tail = tail[len(tail)-2000:]
+				}
+				outs[i].Err = fmt.Sprintf("worker died: %v\n%s", err, tail)
+			}
+		}(i)
+	}
+	wg.Wait()
+	for i, j := range js {
+		o := outs[i]
+		if o.Err != "" {
+			fmt.Println("HARNESS-ERROR", j.V.Kind, j.Init, o.Err)
+			os.Exit(2)
+		}
+		total += o.Cases
+		nontrivial += o.Nontrivial
+		chainTotal += o.ChainCases
+		if !j.Chain {
+			points += o.N
+		}
+		run.Violations = append(run.Violations, o.Violations...)
+		perKind = append(perKind, map[string]interface{}{"victim": j.V.Kind, "initial": j.Init, "hash": stk.HashName(cfgs[j.Cfg]), "crash_chains": j.Chain, "second_victim": map[bool]string{true: chainKinds[j.Second].Kind, false: ""}[j.Chain], "vfs_calls_of_the_call": o.N, "crash_points_enumerated": o.N, "cases": o.Cases, "cases_with_a_failing_call": o.FaultCases, "cases_with_two_crashes": o.ChainCases, "crashes_leaving_list_lock": o.LeftLock})
+		if o.Sample != "" && len(samples) < 10 {
+			samples = append(samples, o.Sample)
+		}
+	}
 	cov := run.Coverage
 	cov["evaluations"] = total
 	cov["distinct_nontrivial"] = nontrivial
-	cov["rule"] = "one case = (victim call kind, initial stack, hash type, k): the victim runs alone on the real code and is killed immediately before its k-th filesystem call (every k from 1 to n, counting descriptor writes and closes too; k=0 lets it finish); then, once as is and once after an operator removed the leftover *.lock files, a survivor process opens, scans, adds, scans, compacts, scans, cleans, closes, reopens and scans. In addition one filesystem call of the victim fails: for every j the victim's j-th call returns EIO (writes, reads, opens, renames, closes of written descriptors; not removals), the victim runs on through its error path and either finishes or is killed before a later call k (thorough: every k>j; quick: k=j+1 and the last call), followed by the same survivor program; a failed operation must leave the state before or the state after, a successful one the state after. Non-trivial = the victim really died mid-call or a call really failed; all cases are distinct tuples"
+	cov["rule"] = "one case = (victim call kind, initial stack, hash type, k): the victim runs alone on the real code and is killed immediately before its k-th filesystem call (every k from 1 to n, counting descriptor writes and closes too; k=0 lets it finish); then, once as is and once after an operator removed the leftover *.lock files, a survivor process opens, scans, adds, scans, compacts, scans, cleans, closes, reopens and scans. In addition one filesystem call of the victim fails: for every j the victim's j-th call fails (writes, reads, opens, renames, closes of written descriptors; not removals) - once with EIO and no effect, once (writes) as a short write that stores half of the bytes and reports ENOSPC -, the victim runs on through its error path and either finishes or is killed before a later call k (thorough: every k>j; quick: k=j+1 and the last call), followed by the same survivor program; a failed operation must leave the state before or the state after, a successful one the state after. Crash chains: after the first victim was killed before call k1 (every k1) and leftover locks were removed, a second process opens the directory, pins the state S1 it sees, performs an auto-compacting Add, a CompactAll or a Clean and is killed before its k2-th call (every k2); the survivor program must then see S1 or S1 followed by the second operation. Non-trivial = the victim(s) really died mid-call or a call really failed; all cases are distinct tuples"
 	cov["samples"] = samples
 	cov["exhaustive"] = true
 	cov["crash_points_total"] = points
+	cov["cases_with_two_crashes"] = chainTotal
 	cov["per_kind"] = perKind
 	cov["states"] = total
 	cov["transitions"] = points
@@ -587,7 +810,8 @@ func main() {
 	}
 	run.Assumptions = []string{
 		"process crash only: completed filesystem calls persist, the killed process runs no cleanup (the code never fsyncs; power loss is outside C06)",
-		"POSIX directory model of DESIGN.md 4.1; one survivor, running sequentially after the crash (a concurrently running survivor is covered by the crash-as-choice scenarios of C05)",
+		"POSIX directory model of DESIGN.md 4.1; survivors run sequentially after the crash (a concurrently running survivor is covered by the crash-as-choice scenarios of C05)",
+		"injected faults: one failing call per victim, EIO without effect or a short write; persistent conditions (every later write failing) are outside",
 	}
 	os.Exit(run.Finish())
 }
